@@ -394,6 +394,11 @@ impl DB {
         } else {
             db_fields_guard.version_set.get_prev_sequence_number()
         };
+        // The memtable must be captured under the lock together with the immutable memtable and
+        // the version. Loading it after the lock is released can observe a memtable created by a
+        // later rotation and miss writes that moved to an immutable memtable or table file that
+        // is not part of the captured state.
+        let memtable = self.memtable();
         let maybe_immutable_memtable = db_fields_guard.maybe_immutable_memtable.clone();
         let current_version = db_fields_guard.version_set.get_current_version();
 
@@ -405,7 +410,7 @@ impl DB {
                 let internal_key = InternalKey::new_for_seeking(key.to_vec(), snapshot);
 
                 // Check the memtable first
-                if let Ok(maybe_value) = self.memtable().get(&internal_key) {
+                if let Ok(maybe_value) = memtable.get(&internal_key) {
                     match maybe_value {
                         Some(value) => return Ok(Some(value.clone())),
                         None => {
